@@ -640,6 +640,66 @@ def s_scoped():
     return xsd, docs
 
 
+# --- absent attributes supplied by a default / fixed value that can itself be invalid -----------
+
+KNS = 'urn:c04:k'
+
+
+def s_attrdefaults():
+    xsd = head(extra=' xmlns:k="%s"' % KNS) + '''<xs:element name="r"><xs:complexType><xs:sequence>
+ <xs:element name="i" minOccurs="0" maxOccurs="unbounded"><xs:complexType>
+  <xs:attribute name="id" type="xs:ID"/><xs:attribute name="see" type="xs:IDREF" default="top"/>
+ </xs:complexType></xs:element>
+ <xs:element name="f" minOccurs="0" maxOccurs="unbounded"><xs:complexType>
+  <xs:attribute name="see" type="xs:IDREF" fixed="top"/></xs:complexType></xs:element>
+ <xs:element name="q" minOccurs="0" maxOccurs="unbounded"><xs:complexType>
+  <xs:attribute name="kind" type="xs:QName" default="k:plain"/></xs:complexType></xs:element>
+ <xs:element name="qf" minOccurs="0" maxOccurs="unbounded"><xs:complexType>
+  <xs:attribute name="kind" type="xs:QName" fixed="k:plain"/></xs:complexType></xs:element>
+</xs:sequence></xs:complexType></xs:element>
+''' + TAIL
+    k = 'xmlns:k="%s"' % KNS
+    docs = [
+        V('ok-nothing', 'idref', '<r/>'),
+        V('ok-idref-default-resolved', 'idref', '<r><i id="top"/><i/></r>'),
+        V('ok-idref-default-resolved-later', 'idref', '<r><i/><i id="top"/></r>'),
+        I('idref-default-dangling', 'idref', '<r><i id="first"/><i/></r>'),
+        I('idref-default-dangling-alone', 'idref', '<r><i/></r>'),
+        I('idref-explicit-dangling', 'idref', '<r><i id="top" see="nowhere"/></r>'),
+        V('ok-idref-explicit-resolved', 'idref', '<r><i id="a" see="a"/></r>'),
+        V('ok-idref-fixed-resolved', 'idref', '<r><i id="top" see="top"/><f/></r>'),
+        I('idref-fixed-dangling', 'idref', '<r><f/></r>'),
+        I('idref-fixed-dangling-second', 'idref', '<r><i id="a" see="a"/><f/></r>'),
+        # the defaulted QName uses the prefix k: the instance must bind it
+        V('ok-qname-default-prefix-bound', 'qname', '<r %s><q/></r>' % k, True),
+        V('ok-qname-default-prefix-bound-on-element', 'lazy-prefix', '<r><q %s/></r>' % k, True),
+        I('qname-default-prefix-unbound', 'qname', '<r><q/></r>', True),
+        I('qname-default-prefix-bound-elsewhere', 'qname', '<r><q %s/><q/></r>' % k, True),
+        V('ok-qname-explicit', 'qname', '<r xmlns:p="urn:c04:p"><q kind="p:x"/></r>', True),
+        V('ok-qname-fixed-prefix-bound', 'qname', '<r %s><qf/><qf kind="k:plain"/></r>' % k, True),
+        I('qname-fixed-prefix-unbound', 'qname', '<r><qf/></r>', True),
+    ]
+    return xsd, docs
+
+
+def s_iddefault():
+    """XSD 1.1 only (1.0 forbids value constraints on xs:ID): two elements that omit the attribute get the same ID."""
+    xsd = head() + '''<xs:element name="r"><xs:complexType><xs:sequence>
+ <xs:element name="d" minOccurs="0" maxOccurs="unbounded"><xs:complexType>
+  <xs:attribute name="id" type="xs:ID" default="one"/><xs:attribute name="ref" type="xs:IDREF"/>
+ </xs:complexType></xs:element>
+</xs:sequence></xs:complexType></xs:element>
+''' + TAIL
+    docs = [
+        V('ok-id-default-once', 'id', '<r><d/></r>'),
+        V('ok-id-default-referenced', 'id', '<r><d/><d id="two" ref="one"/></r>'),
+        V('ok-id-explicit', 'id', '<r><d id="a"/><d id="b"/></r>'),
+        I('id-default-twice', 'id', '<r><d/><d/></r>'),
+        I('id-default-and-explicit-same', 'id', '<r><d id="one"/><d/></r>'),
+    ]
+    return xsd, docs
+
+
 # --- documents with exactly k errors --------------------------------------------------------
 
 K_XSD = head() + '''<xs:element name="r"><xs:complexType><xs:sequence>
@@ -665,7 +725,7 @@ _TABLE = (
     ('typesns', BOTH, s_types_ns), ('typeslocal', BOTH, s_types_local), ('subst', BOTH, s_subst),
     ('identity', BOTH, s_identity), ('id', BOTH, s_id), ('assert', ('1.1',), s_assert), ('k', BOTH, s_k),
     ('anyattr', BOTH, s_anyattr), ('inherit', ('1.1',), s_inherit), ('imported', BOTH, s_imported),
-    ('scoped', BOTH, s_scoped),
+    ('scoped', BOTH, s_scoped), ('attrdefaults', BOTH, s_attrdefaults), ('iddefault', ('1.1',), s_iddefault),
 )
 
 
